@@ -18,7 +18,8 @@ RULE = ('directions: boundary grid (every 5 deg) and seeded-random points with h
 ASSUMPTIONS = ['float32 accuracy bound of the statement taken as 1e-6 rad (measured worst values are in the evidence)',
                'V2 reference: light plane through the rotation axis direction tilted by 30 deg, n(a).d = 0']
 REQUIRED = ['mon.v1_v2_v1', 'mon.v1_cart_v1', 'mon.v1_proj_v1', 'mon.v2_plane_reference', 'mon.pose_inverse',
-            'mon.pose_associativity', 'mon.pose_views', 'mon.solver_projection', 'mon.solver_zero_rotation', 'mon.ippe_axes', 'mon.pose_laws_after_history']
+            'mon.pose_associativity', 'mon.pose_views', 'mon.solver_projection', 'mon.solver_zero_rotation', 'mon.ippe_axes', 'mon.pose_laws_after_history',
+            'mon.solver_pairs_with_crazyflie_behind_the_base_station']
 
 H_LIM, V_LIM = math.radians(80), math.radians(55)
 T = math.pi / 6
@@ -252,8 +253,17 @@ def run_solver(desc, ctx):
                 Rb = np.eye(3)
                 tb = np.array([-3.0, 0.2, 0.1])
                 ctx.count('mon.solver_zero_rotation')
+            if rnd.random() < 0.25:
+                # any pose pair at all: the Crazyflie may be beside or behind the base station
+                (Rb, tb), (Rc, tc) = _rand_pose(rnd, 'random'), _rand_pose(rnd, 'random')
+                zero = False
+                behind = True
+            else:
+                behind = False
             B, C = Pose(Rb, tb), Pose(Rc, tc)
             s = lhgen.SENSORS[rnd.randrange(4)]
+            if behind and float(B.inv_rotate_translate(C.rotate_translate(s))[0]) < 0:
+                ctx.count('mon.solver_pairs_with_crazyflie_behind_the_base_station')
             rv_b = B.rot_vec if not np.allclose(Rb, np.eye(3)) else np.zeros(3)
             rv_c = C.rot_vec if not zero else np.zeros(3)
             bsp.append(np.concatenate((rv_b, tb)))
@@ -265,7 +275,9 @@ def run_solver(desc, ctx):
         ctx.evals()
         ctx.count('mon.solver_projection', n)
         ctx.nontrivial(('solver', desc['seed'], it))
-        err = float(np.max(np.abs(np.asarray(got) - np.asarray(want)))) if np.all(np.isfinite(got)) else float('inf')
+        # angles are compared modulo a full turn (the two paths may land on either side of the +-pi cut)
+        dif = (np.asarray(got) - np.asarray(want) + np.pi) % (2 * np.pi) - np.pi
+        err = float(np.max(np.abs(dif))) if np.all(np.isfinite(got)) else float('inf')
         worst = max(worst, err)
         if not err <= 1e-9:
             ctx.violate('solver:vectorised-projection-differs-from-type-projection',
